@@ -94,3 +94,12 @@ func init() {
 		})
 	}
 }
+
+func init() {
+	dumpers["scc"] = func(c *Ctx) {
+		reach := c.programReach()
+		for _, comp := range c.recursiveSCCs(reach, staticOrInvoke) {
+			fmt.Println(len(comp), sccName(comp))
+		}
+	}
+}
